@@ -596,21 +596,22 @@ func (d *c08) filterOracle(c *c08Case, mi *methodInfo) bool {
 	// the reply of a failing hook: a plain error is a failure status the client reports as an error; an error response is
 	// delivered like a resource's
 	hookFailure := func(which, kind string, status int, msg string) {
+		lw := strings.ToLower(which)
 		if strings.HasSuffix(kind, "-plain") {
 			if o.Status < 400 {
-				fail("filter:"+which+"-error:success-status", "a failing "+which+"Request hook is answered with a success status")
+				fail("filter:"+lw+"-error:success-status", "a failing "+which+"Request hook is answered with a success status")
 			}
 			if o.Client == "ok" || o.Client == "created" {
-				fail("filter:"+which+"-error:client-ok", "a failing "+which+"Request hook is not reported to the caller as an error")
+				fail("filter:"+lw+"-error:client-ok", "a failing "+which+"Request hook is not reported to the caller as an error")
 			}
 			return
 		}
 		if o.Status != status || !o.ErrHeader {
-			fail("filter:"+which+"-errresp:status-or-header", "the error response of a failing "+which+"Request hook is not sent with its status and the error header")
+			fail("filter:"+lw+"-errresp:status-or-header", "the error response of a failing "+which+"Request hook is not sent with its status and the error header")
 		}
 		if o.Client != "restli-error" || o.ClientErr == nil || o.ClientErr.Status == nil || int(*o.ClientErr.Status) != status ||
 			o.ClientErr.Message == nil || *o.ClientErr.Message != msg {
-			fail("filter:"+which+"-errresp:client", "the error response of a failing "+which+"Request hook does not reach the caller as a *restli.Error carrying it")
+			fail("filter:"+lw+"-errresp:client", "the error response of a failing "+which+"Request hook does not reach the caller as a *restli.Error carrying it")
 		}
 	}
 	switch {
